@@ -97,6 +97,11 @@ type Sim struct {
 	// OnEmit is called (driver goroutine, quiescent) for every datagram handed
 	// to a simulated conn, in sorted order, before its fate is decided.
 	OnEmit func(p *OutPkt)
+	// DoneKey, if set, orders the completions processed in one drain.
+	DoneKey func(a *Actor, res any) string
+	// IsPost reports whether a datagram was emitted after Close of its session.
+	IsPost func(p *OutPkt) bool
+	visIdx map[string]int
 	// Fate decides what happens to an emitted datagram.
 	Fate func(p *OutPkt) []Delivery
 	// Invariants run at every quiescence.
@@ -296,13 +301,14 @@ func (s *Sim) Settle(d time.Duration) {
 
 // OutPkt is a datagram handed to a simulated conn by the library.
 type OutPkt struct {
-	At    time.Duration
-	Src   *SimConn
-	Dst   string
-	Idx   int // index within the (src,dst) flow
-	Data  []byte
-	Frame *Frame // filled by the scenario's OnEmit when it decodes the datagram
-	Post  bool   // emitted after the sending session's Close was invoked
+	At      time.Duration
+	Src     *SimConn
+	Dst     string
+	Idx     int // index within the (src,dst) flow (datagrams emitted after Close do not count)
+	arrival int // order of arrival at the conn within the flow (sorting only)
+	Data    []byte
+	Frame   *Frame // filled by the scenario's OnEmit when it decodes the datagram
+	Post    bool   // emitted after the sending session's Close was invoked
 }
 
 // Delivery is one copy of a datagram to be delivered after Delay.
@@ -316,7 +322,7 @@ type Delivery struct {
 
 func (s *Sim) emit(p *OutPkt) {
 	s.mu.Lock()
-	p.Idx = p.Src.flowIdx[p.Dst]
+	p.arrival = p.Src.flowIdx[p.Dst]
 	p.Src.flowIdx[p.Dst]++
 	s.outbox = append(s.outbox, p)
 	s.mu.Unlock()
@@ -345,9 +351,24 @@ func (s *Sim) drain() {
 			if a.Dst != b.Dst {
 				return a.Dst < b.Dst
 			}
-			return a.Idx < b.Idx
+			return a.arrival < b.arrival
 		})
 		for _, p := range out {
+			// Datagrams a session emits after its own Close was invoked exist or not
+			// by an unseedable runtime choice (select with two ready cases): they get
+			// no visible index, so that they cannot shift the numbering of anything
+			// that follows on the same flow.
+			if s.IsPost != nil && s.IsPost(p) {
+				p.Post = true
+				p.Idx = -1
+			} else {
+				if s.visIdx == nil {
+					s.visIdx = map[string]int{}
+				}
+				k := p.Src.addrStr + ">" + p.Dst
+				p.Idx = s.visIdx[k]
+				s.visIdx[k]++
+			}
 			if s.OnEmit != nil {
 				s.OnEmit(p)
 			}
@@ -361,7 +382,16 @@ func (s *Sim) drain() {
 				s.scheduleDelivery(p, d)
 			}
 		}
-		sort.SliceStable(done, func(i, j int) bool { return done[i].actor.ID < done[j].actor.ID })
+		sort.SliceStable(done, func(i, j int) bool {
+			if s.DoneKey != nil {
+				// interchangeable actors: order completions by what they returned, not by
+				// which goroutine the runtime happened to serve
+				if ki, kj := s.DoneKey(done[i].actor, done[i].res), s.DoneKey(done[j].actor, done[j].res); ki != kj {
+					return ki < kj
+				}
+			}
+			return done[i].actor.ID < done[j].actor.ID
+		})
 		for _, c := range done {
 			c.actor.busy = false
 			c.actor.Calls++
